@@ -765,7 +765,8 @@ func (e *Engine) bindChecked(st *State, x ssa.Value, v Lin) bool {
 	// 64-bit types (no HasHi): the analysis assumes that arithmetic on values
 	// derived from lengths and small counters does not overflow 2^63 (stated
 	// in every evidence file); only the unsigned lower bound is checked.
-	if in, ok := x.(ssa.Instruction); ok && !fits && !v.Bad && r.HasHi && e.AssumeNoWrap[in.Parent()] {
+	if in, ok := x.(ssa.Instruction); ok && !fits && !v.Bad && r.HasHi && r.Hi-r.Lo >= 65535 && e.AssumeNoWrap[in.Parent()] {
+		// (only 16-bit and wider arithmetic: the size-domain assumption bounds sizes by 65532, it says nothing about 8-bit arithmetic)
 		// client-stated domain assumption: arithmetic of this function does not wrap
 		if r.HasLo {
 			st.Assume(v.AddConst(-r.Lo))
